@@ -111,9 +111,10 @@ def check_case(ctx: Ctx, c: dict):
         if f["at"] >= ncalls:
             ctx.count("fault-beyond-program")
             return
-        fs = f"{f['at']}:{'died' if f['kind'] == 'died' else 'io'}:{1 if f.get('after') else 0}"
+        fs = f"{f['at']}:{'died' if f['kind'] == 'died' else 'io'}:{1 if (f.get('after') and f['kind'] != 'stall') else 0}"
         model = d.ask(f"upload {','.join(map(str, chunks))} {fs}").split()
         ctx.count("fault:" + f["kind"] + ("/after" if f.get("after") else "/before"))
+        stall = f["kind"] == "stall"
         pre = c.get("pre", "fresh")
         if f["kind"] == "died":
             _crash_variant(ctx, c, td, dry, model)
@@ -248,7 +249,7 @@ def cases(ctx: Ctx):
             shutil.rmtree(td, ignore_errors=True)
         yield p  # fault-free
         for at in range(ncalls + 1):
-            for kind, after in (("io", False), ("io", True), ("died", False)):
+            for kind, after in (("io", False), ("io", True), ("died", False), ("stall", False)):
                 if kind == "died" and ctx.quick and at % 3 != 0 and at > 4 and at != ncalls - 1:
                     continue
                 yield dict(p, fault=dict(at=at, kind=kind, after=after), pre=("recycled" if (at % 4 == 3 and kind == "io") else "fresh"))
